@@ -92,7 +92,9 @@ class Constraint(BaseConstraint):
                 if self._operator == "not in":
                     return other.value in self.value
                 if self._operator == "!=":
-                    return self.value not in other.value
+                    # every value without the substring differs from our value
+                    # if and only if our value contains the substring
+                    return other.value in self.value
 
             return self == other
 
